@@ -27,7 +27,7 @@ Definition p0_of (c : caseR) : list N := repeat 18446744073709551615%N (r_plen c
 Definition run_fuel : nat := 2000.
 
 (* the variant of the cut search the current source implements (translator) *)
-Definition rcb_variant : variant := mkvariant rcb_old_rules rcb_by_coord rcb_probe_max rcb_safe_mid.
+Definition rcb_variant : variant := mkvariant rcb_old_rules rcb_by_coord rcb_probe_max rcb_safe_mid rcb_clamp_cast.
 
 Definition model_of (c : caseR) : res (list N) :=
   rcb rcb_variant run_fuel seq_sched (r_D c) (r_k c) (f64_of_bits (r_tol c)) (pts_of c) (r_ws c) (p0_of c).
@@ -57,29 +57,32 @@ Fixpoint items32 (i : N) (p32 : list (list spec_float)) (ws : list Z) : list ite
 
 (* One evaluation per case; the f64 values and their binary32 images are
    computed once.
-   Usage contract: matching lengths, D coordinates per point, finite f64
-   coordinates, non-negative weights, iter_count <= 62.  [wide]: the binary32
-   image of a coordinate may be infinite (|x| > f32::MAX): the code at HEAD
-   terminates and returns a bisection tree on such inputs (C03), but every
-   point of an axis that holds an infinite value may stay on one side, so the
-   balance statement (C04) and the decidable premise of the theorems
-   (box_ok32: the root box has finite canonical bounds that enclose the
-   binary32 coordinates) are evaluated on [narrow] only, where the binary32
-   images are finite too.  [balance]: also judge every bisection (C04). *)
+   Usage contract [wide]: matching lengths, D coordinates per point, finite f64
+   coordinates, non-negative weights, iter_count <= 62.
+   The property is judged on the single-precision coordinates CLAMPED to
+   [f32::MIN, f32::MAX] ([cast32 true]: what the current source computes; a
+   finite f64 beyond the binary32 range counts as +-f32::MAX, points sharing
+   that image form one group), whatever cast the modelled source uses: code
+   that lets such coordinates become infinities keeps them all on one side
+   and is rejected by the balance clause.
+   The decidable premise of the theorems (box_ok32c: the root box has finite
+   canonical bounds that enclose the binary32 coordinates) is evaluated as a
+   cross-check on the model's own images when they are finite.
+   [balance]: also judge every bisection (C04). *)
 Definition eval_rcb (balance : bool) (c : caseR) : verdict :=
   let D := r_D c in let k := r_k c in let ws := r_ws c in
   let p64 := pts_of c in
-  let p32 := map (map f64_to_f32) p64 in
+  let p32 := map (map (cast32 true)) p64 in
+  let p32m := if rcb_clamp_cast then p32 else map (map f64_to_f32) p64 in
   let tol := f64_of_bits (r_tol c) in
   let model := rcb rcb_variant run_fuel seq_sched D k tol p64 ws (p0_of c) in
   let wf := wellformed c in
   let wide := wf && forallb (fun p => Nat.eqb (length p) D && forallb is_finite p) p64
               && forallb (fun w => 0 <=? w) ws && Nat.leb k 62 in
-  let narrow := wide && forallb (fun p => forallb is_finite p) p32 in
   let premise :=
-    if narrow && negb (Nat.eqb (r_plen c) 0) then
-      match bbox32 D 0 p64 with
-      | Some bb => box_ok_from 0 bb (items32 0 p32 ws)
+    if wide && negb (Nat.eqb (r_plen c) 0) && forallb (fun p => forallb is_finite p) p32m then
+      match bbox32 rcb_clamp_cast D 0 p64 with
+      | Some bb => box_ok_from 0 bb (items32 0 p32m ws)
       | None => false
       end
     else true in
@@ -88,7 +91,7 @@ Definition eval_rcb (balance : bool) (c : caseR) : verdict :=
     if wide then
       match r_impl c with
       | IOk p =>
-        if balance && narrow then check_balance spec_float flt (tol_test tol) f32_valid D k p32 ws p
+        if balance then check_balance spec_float flt (tol_test tol) f32_valid D k p32 ws p
         else check_bisect spec_float flt f32_valid D k p32 p
       | _ => false                       (* error, panic or hang inside the contract *)
       end
